@@ -130,6 +130,7 @@ def op_strategy(features):
                           st.sampled_from(['before', 'after'])),
                 st.tuples(st.just('fail_commit'), st.sampled_from(['commit', 'tpc_vote']), st.just('after')),
                 st.tuples(st.just('conflict_commit'), n),
+                st.tuples(st.just('pickle_fail_commit'), n),
                 st.tuples(st.just('close_reopen')),
                 st.tuples(st.just('minimize'))]
     if 'savepoint' in features:
@@ -446,6 +447,8 @@ class World:
             self.fail_commit(op[1], op[2])
         elif k == 'conflict_commit':
             self.conflict_commit(self.pick(op[1]))
+        elif k == 'pickle_fail_commit':
+            self.pickle_fail_commit(self.pick(op[1]))
         elif k == 'close_reopen':
             self.close_reopen()
         elif k == 'minimize':
@@ -549,6 +552,52 @@ class World:
         # objects implicitly added during the failed commit are disowned again
         self.labels.add('failed-commit-%s-%s' % (phase, position))
         self.after_abort('failed commit (participant %s fails in %s)' % (position, phase), before, interesting)
+
+    def pickle_fail_commit(self, n):
+        """an object that this commit stores cannot be pickled: the commit raises while storing;
+        everything stored so far is aborted"""
+        m = self.m
+        if not self.had_work() or n == 'root' or n not in m.closure():
+            return
+        before = self.last_txn()
+        interesting = bool(m.dirty & set(m.committed)) and bool(m.owned - set(m.committed))
+        o = self.objs[n]
+        kind = m.mem[n]['kind']
+        poison = lambda: None       # noqa: E731  (not picklable)
+        if kind == 'N':
+            o.poison = poison
+        elif kind == 'M':
+            o['poison'] = poison
+        else:
+            o.append(poison)
+        try:
+            self.tm.commit()
+        except Exception as e:
+            if 'pickle' not in (type(e).__name__ + str(e)).lower():
+                raise
+        else:
+            self.fail('pickle-fail-commit', 'not-raised', 'commit of an unpicklable object did not raise')
+            return
+        self.tm.abort()
+        # repair the object so that the program can go on with it (it reverted if it was committed)
+        o = self.objs[n]
+        try:
+            if kind == 'N':
+                if 'poison' in o.__dict__:
+                    del o.poison
+            elif kind == 'M':
+                if 'poison' in o:
+                    del o['poison']
+            else:
+                if len(o) > 4:
+                    o.pop()
+        except Exception as e:
+            self.fail('object-state', 'unreadable', 'after the failed commit object %s cannot be used: %r' % (n, e))
+            return
+        if n in m.committed:
+            self.tm.abort()         # the repair of a committed object is itself a change: discard it
+        self.labels.add('failed-commit-unpicklable')
+        self.after_abort('failed commit (object %s not picklable)' % n, before, interesting)
 
     def conflict_commit(self, n):
         """another connection commits a change to n first: the writer's commit must conflict"""
